@@ -296,6 +296,29 @@ theorem tta_marker_forward_standard_gene (l : Loc) (hwf : geneWF l = true) (hnr 
     rw [← this]; exact hr
   exact ⟨r, hb, by simp [ttaLocation, hr', featureAt, Res.bind, hno], by simp [ttaDetectMarker, hr', Res.bind, hno]⟩
 
+/-- mirror of `tta_marker_forward_standard_gene` for reverse-strand genes in their standard exon order (exons listed
+    downwards without overlap, `descDisjointB`): every in-frame TTA codon is marked, at exactly its three bases -/
+theorem tta_marker_reverse_standard_gene (l : Loc) (hwf : geneWF l = true) (hr : isRev l = true)
+    (hdesc : descDisjointB l.parts = true) (off : Nat) (h : (off : Int) + 3 ≤ l.len) :
+    ∃ r, bases r = sliceL (bases l) off (off + 3) ∧ ttaLocation l off = .ok r ∧
+      ttaDetectMarker l off = .ok (some r) := by
+  obtain ⟨r, hrr, hb, hno⟩ := offsets_reverse_standard_representable l hwf hr hdesc off (off + 3) (by omega)
+    (by push_cast; omega)
+  have hr' : subLocationFromOffsets l (off : Int) ((off : Int) + 3) = .ok r := by
+    have : ((off + 3 : Nat) : Int) = (off : Int) + 3 := by push_cast; rfl
+    rw [← this]; exact hrr
+  exact ⟨r, hb, by simp [ttaLocation, hr', featureAt, Res.bind, hno], by simp [ttaDetectMarker, hr', Res.bind, hno]⟩
+
+/-- domains / motifs / pfam hits on a gene in the standard exon order of its strand (single-exon genes included): the
+    feature built from the sub-location for residues `[s,e)` is NEVER refused by the Feature constructor, and covers
+    `bases l [3s:3e]` — the `unrepresentable` refusal can only happen for overlapping or origin-spanning exons -/
+theorem annotation_standard_gene_never_refused (l : Loc) (hwf : geneWF l = true)
+    (hstd : (isRev l = false ∧ ascDisjointB l.parts = true) ∨ (isRev l = true ∧ descDisjointB l.parts = true))
+    (s e : Nat) (hse : s < e) (he : (e : Int) ≤ l.len / 3) :
+    ∃ r, featureAt (subLocation l s e) = .ok r ∧ bases r = sliceL (bases l) (3 * s) (3 * e) := by
+  obtain ⟨r, _, h2, h3⟩ := annotation_standard_representable l hwf hstd s e hse he
+  exact ⟨r, h2, h3⟩
+
 /-! ### non-vacuity and witnesses (all decided by the kernel on the model) -/
 
 /-- D8 witnesses, now repaired: the origin-spanning forward gene join{[90:102),[0:21)} and its reverse twin -/
@@ -398,5 +421,10 @@ example : frameGuard (.simple ⟨5, 20, .rev⟩) 3 false = true
 /-- hypotheses of `tta_marker_forward_standard_gene` on a three-exon gene, codon split over two exons -/
 example : ascDisjointB [⟨3, 10, .fwd⟩, ⟨20, 31, .fwd⟩] = true
     ∧ ttaDetectMarker (.compound [⟨3, 10, .fwd⟩, ⟨20, 31, .fwd⟩]) 6 = .ok (some (.compound [⟨9, 10, .fwd⟩, ⟨20, 22, .fwd⟩])) := by decide
+
+/-- hypotheses of the reverse-strand results on a two-exon gene; the refusal really needs overlapping exons -/
+example : descDisjointB [⟨20, 31, .rev⟩, ⟨3, 10, .rev⟩] = true
+    ∧ ttaDetectMarker (.compound [⟨20, 31, .rev⟩, ⟨3, 10, .rev⟩]) 9 = .ok (some (.compound [⟨20, 22, .rev⟩, ⟨9, 10, .rev⟩]))
+    ∧ descDisjointB [⟨2, 9, .rev⟩, ⟨0, 3, .rev⟩, ⟨10, 16, .rev⟩] = false := by decide
 
 end ASV.C09
